@@ -151,7 +151,7 @@ def C17_ext(ctx, facts):
     import c13
     n0 = len(ctx.obs)
     c13.C13_4(ctx, facts)
-    mine = [o for o in ctx.obs[n0:] if "connection-headers" in o.key or "CONNECTION_HEADERS" in o.key]
+    mine = [o for o in ctx.obs[n0:] if "h2-table|HTTP_2|GET" in o.key or "h2-table-rows" in o.key]
     ctx.obs[n0:] = mine
     ctx.floor("check_http2_request|connection-header-obligations", len(mine), 2, "obligations on the removal of connection-specific headers")
     # second external precondition: hyper's HTTP/1 encoder panics on a request version it cannot write (`unexpected request
